@@ -82,3 +82,96 @@ Definition verdict (g gfh : Z) (c : ccase) : list (Z * Z * Z * Z) :=
 
 Definition run_cases (g gfh : Z) (cs : list ccase) : list (Z * Z * Z * Z) :=
   flat_map (verdict g gfh) cs.
+
+(* ---------------- start-up paths ---------------- *)
+(* skind 0: crash image of the very first start on an empty directory
+            (sfilter: inside NewFilterHeaderStore, block store complete);
+   skind 1: crash image of the filter header state reset that the assertion
+            [sassert] triggers on the state after [sprefix];
+   skind 2: no crash: the state after [sprefix] opened with an assertion that
+            must NOT trigger.
+   The image is reopened with the assertion ([swith]) or without; [sopened]
+   says whether the real constructors succeeded; [spost] is the dump and the
+   follow-up append on the reopened stores. *)
+Record scase := {
+  sid : Z;
+  skind : Z;
+  sprefix : list (op * obs);
+  sfilter : bool;
+  sassert : option (Z * Z);
+  sk : Z;
+  storn : option Z;
+  swith : bool;
+  skinds : list Z;           (* durable steps the implementation performed *)
+  sopened : bool;
+  spost : list (op * obs)
+}.
+
+(* rejected by every allowed log: the latest failing step; None = accepted *)
+Fixpoint judge (als : list alog) (i0 : Z) (tr : list (op * obs)) : option Z :=
+  match als with
+  | [] => Some i0
+  | al :: rest =>
+    match amatch al i0 tr with
+    | None => None
+    | Some i => match judge rest i0 tr with None => None | Some j => Some (Z.max i j) end
+    end
+  end.
+
+(* root-cause code: 41 first start, 42 state reset, 43 assertion that must not trigger *)
+Definition stag (c : scase) : Z :=
+  if skind c =? 0 then 41 else if skind c =? 1 then 42 else 43.
+
+Definition sverdict (g gfh : Z) (c : scase) : list (Z * Z * Z * Z) :=
+  match init g gfh with
+  | None => [(sid c, 1, -1, 0)]
+  | Some s0 =>
+    let '(s, mm) := run_prefix g gfh s0 0 (sprefix c) in
+    let np := Z.of_nat (length (sprefix c)) in
+    let k := zn (sk c) in
+    (* model: same image, same constructor, same observations *)
+    (match mm with
+     | Some i => [(sid c, 1, i, 0)]
+     | None =>
+       let img :=
+         if skind c =? 0 then first_start_crash g gfh (sfilter c) k (storn c)
+         else if skind c =? 1 then
+           (if assertion_resets (ff s) (sassert c) then reset_crash g gfh s k (storn c) else None)
+         else (if assertion_resets (ff s) (sassert c) then None else Some s) in
+       let ds :=
+         if skind c =? 0 then (if sfilter c then first_steps_f g gfh else first_steps_b g)
+         else if skind c =? 1 then reset_steps gfh g else [] in
+       (if list_eqb (map step_kind ds) (skinds c) then [] else [(sid c, 1, np, 0)]) ++
+       match img with
+       | None => [(sid c, 1, np, 0)]
+       | Some cs =>
+         match recover_assert g gfh (if swith c then sassert c else None) cs with
+         | None => if sopened c then [(sid c, 1, np, 0)] else []
+         | Some m =>
+           if sopened c then
+             match first_mismatch g gfh m (np + 1) (spost c) with
+             | Some i => [(sid c, 1, i, 0)] | None => [] end
+           else [(sid c, 1, np, 0)]
+         end
+       end
+     end) ++
+    (* monitor, independent of the model's image: the stores open and behave
+       as the log from before or after the interrupted start-up step *)
+    match aprefix {| bl := [g]; fl := [gfh] |} (sprefix c) with
+    | None => []
+    | Some a =>
+      let after := {| bl := bl a; fl := [gfh] |} in
+      let allowed :=
+        if skind c =? 1 then after :: (if (sk c =? 0) && negb (swith c) then [a] else [])
+        else [a] in
+      if sopened c then
+        match judge allowed (np + 1) (spost c) with
+        | Some i => [(sid c, 2, i, stag c)]
+        | None => []
+        end
+      else [(sid c, 2, np, stag c)]
+    end
+  end.
+
+Definition run_scases (g gfh : Z) (cs : list scase) : list (Z * Z * Z * Z) :=
+  flat_map (sverdict g gfh) cs.
